@@ -4,6 +4,7 @@
 -/
 import PyGqlModel.Props.C18
 import PyGqlModel.Props.C18_once
+import PyGqlModel.Props.C18_edit
 
 namespace PyGql.Props.C18
 open PyGql.Visit PyGql.Generated.VisitTable
@@ -100,8 +101,6 @@ example : (implKeys 64 witnessSmall).isSome = true ∧ (implKeys 64 witnessExec)
     (implKeys 64 witnessSdl).isSome = true := by decide +kernel
 example : (idsNode witnessSmall).Nodup ∧ (idsNode witnessExec).Nodup := by decide +kernel
 
-/-- acts on the node with identity `i`, changes nothing elsewhere -/
-def actAt (i : Nat) (a : Node → Act) : Visitor Unit := ⟨fun n s => (if n.id == i then a n else .keep n, s), fun _ s => s⟩
 
 /-- such a visitor that deletes or skips is identity preserving (hypothesis of `balanced`) -/
 example (i : Nat) : IdPreserving (actAt i fun _ => .delete) := by
@@ -136,5 +135,44 @@ example :
     let r : Node := .mk "Field" 100 [("name", .one none), ("alias", .one none), ("arguments", .many []), ("directives", .many []), ("selection_set", .one none)]
     sameTree (visit table (actAt 10 fun _ => .replace r) 64 witnessSmall ()) (Spec.editAt pathB (.replace r) witnessSmall) = true := by
   decide +kernel
+
+/-! ### tree-level locality for today's table -/
+
+/-- delete / replace / skip at ANY position reached by today's traversal give exactly `Spec.editAt` -/
+theorem edits_today (x t : Node) (p : List (String × Option Nat)) (fuel : Nat) (o : Out Unit)
+    (hr : ReachV table t p) (hnd : (idsNode t).Nodup) (hx : Spec.nodeAt p t = some x) :
+    (visit table (actAt x.id fun _ => .delete) fuel t () = .ok o → Spec.editAt p .delete t = some o.ret) ∧
+    (∀ r, x.id ∉ idsNode r → visit table (actAt x.id fun _ => .replace r) fuel t () = .ok o →
+        Spec.editAt p (.replace r) t = some o.ret) ∧
+    (visit table (actAt x.id fun n => .skip n) fuel t () = .ok o → o.ret = some t) :=
+  ⟨delete_at table table_StepsDistinct x t p fuel o hr hnd hx,
+   fun r hf => replace_at table table_StepsDistinct x t r p fuel o hr hnd hx hf,
+   skip_at table table_StepsDistinct x t p fuel o hr hnd hx⟩
+
+mutual
+/-- paths of all non-name nodes of a tree (specification side: every child attribute) -/
+def pathsNode : Node → List (List (String × Option Nat))
+  | .mk _ _ a => [] :: pathsAttrs a
+def pathsAttrs : List (String × Attr) → List (List (String × Option Nat))
+  | [] => []
+  | (name, a) :: r => pathsAttr name a ++ pathsAttrs r
+def pathsAttr (name : String) : Attr → List (List (String × Option Nat))
+  | .scalar _ => []
+  | .one none => []
+  | .one (some c) => if c.kind == "Name" then [] else (pathsNode c).map ((name, none) :: ·)
+  | .many cs => pathsList name 0 cs
+def pathsList (name : String) (i : Nat) : List Node → List (List (String × Option Nat))
+  | [] => []
+  | c :: r => (if c.kind == "Name" then [] else (pathsNode c).map ((name, some i) :: ·)) ++ pathsList name (i + 1) r
+end
+
+/-- non-vacuity: EVERY non-name position of `{ a(x: 1) @d b { c } }` (10 positions) is reached by today's traversal,
+    so `edits_today` applies to all of them; in the executable witness 14 positions are reached and 11 are not (W1–W3) -/
+example : (pathsNode witnessSmall).length = 10 ∧
+    (pathsNode witnessSmall).all (fun p => reachB table "_visit_document" witnessSmall p) = true := by decide +kernel
+example : ((pathsNode witnessExec).filter (fun p => reachB table "_visit_document" witnessExec p)).length = 14 ∧
+    ((pathsNode witnessExec).filter (fun p => !reachB table "_visit_document" witnessExec p)).length = 11 := by decide +kernel
+example : ReachV table witnessSmall pathB :=
+  ⟨"_visit_document", by decide +kernel, reachB_sound table _ _ _ (by decide +kernel)⟩
 
 end PyGql.Props.C18
